@@ -32,6 +32,8 @@ type Out struct {
 	Inconclusive int64
 	Notes        []string
 	MaxSamples   int
+	// OnEval, when set by the worker, is called at every evaluation (the watchdog's heartbeat)
+	OnEval func() `json:"-"`
 }
 
 func NewOut() *Out { return &Out{Counters: map[string]int64{}, MaxSamples: 2} }
@@ -45,6 +47,9 @@ func Hash(s string) uint64 {
 // Eval records one evaluation; sig is its canonical descriptor (distinctness is
 // decided on its hash) and nontrivial says whether it counts as non-trivial.
 func (o *Out) Eval(sig string, nontrivial bool) {
+	if o.OnEval != nil {
+		o.OnEval()
+	}
 	o.Evals++
 	if nontrivial {
 		o.Hashes = append(o.Hashes, Hash(sig))
@@ -53,6 +58,9 @@ func (o *Out) Eval(sig string, nontrivial bool) {
 
 // EvalH is Eval with a precomputed hash.
 func (o *Out) EvalH(h uint64, nontrivial bool) {
+	if o.OnEval != nil {
+		o.OnEval()
+	}
 	o.Evals++
 	if nontrivial {
 		o.Hashes = append(o.Hashes, h)
@@ -90,6 +98,9 @@ type Ctx struct {
 	Idx     int
 	R       *gen.R
 	Replay  bool
+	// Beat, when the property sets BeatTimeoutS, is called by the case between its
+	// executions; the worker's watchdog then also fires when no beat came for that long.
+	Beat func()
 }
 
 func (c *Ctx) Thorough() bool { return c.Tier == "thorough" }
@@ -115,6 +126,9 @@ type Prop struct {
 	Required []string
 	// CaseTimeoutS overrides the per-case watchdog (seconds).
 	CaseTimeoutS int
+	// BeatTimeoutS > 0: a case that does not call Ctx.Beat for this long (x3 in the
+	// sanitizer builds, x2 in the isolated re-run) is treated as hung
+	BeatTimeoutS int
 	// MaxWorkers bounds parallel workers (0 = 16).
 	MaxWorkers int
 }
